@@ -56,16 +56,21 @@ theorem mem_kidsOfCls_respell {c : Cls} {K : List Node} {n : Node} (h : K ∈ ki
 
 /-! ### (a) comma-separated lists -/
 
-/-- **IdentifierList in context**: exactly one top-level `IdentifierList`, and `get_identifiers()` yields the re-spelled
-items in order; in the skeleton their texts are the written items. -/
-theorem identList_in_context (sk : ClauseSkel) (hk : sk.kind = .identList) (h : canonical sk = true)
-    (ha : AdmissibleNames kwNorm f) (fuel : Nat) (hfuel : clauseFuel ≤ fuel) :
+/-- the statement of `identList_in_context` -/
+def IdentListInContext (f : TType → Text → Text) (sk : ClauseSkel) (fuel : Nat) : Prop :=
     ∃ (ts : List Tok) (ks' K' : List Node) (items : List Node),
       clauseTokens sk = .ok ts ∧
       groupStatement fuel (ts.map (respellTok f)) = .ok (.grp .Statement ks') ∧
       topKidsOfCls .IdentifierList ks' = [K'] ∧
       (getIdentifiers kwNorm K').map (·.2) = items.map (respell f) ∧
-      items.map Node.text = sk.items := by
+      items.map Node.text = sk.items
+
+/-- **IdentifierList in context**: exactly one top-level `IdentifierList`, and `get_identifiers()` yields the re-spelled
+items in order; in the skeleton their texts are the written items. -/
+theorem identList_in_context (sk : ClauseSkel) (hk : sk.kind = .identList) (h : canonical sk = true)
+    (ha : AdmissibleNames kwNorm f) (fuel : Nat) (hfuel : clauseFuel ≤ fuel) :
+    IdentListInContext f sk fuel := by
+  unfold IdentListInContext
   obtain ⟨tree0, htree, hc⟩ := canonical_tree h
   obtain ⟨ts, ks0, hts, rfl, hg⟩ := clauseTree_respell sk htree ha fuel hfuel
   simp only [canonicalOn, hk] at hc
@@ -83,16 +88,21 @@ theorem identList_in_context (sk : ClauseSkel) (hk : sk.kind = .identList) (h : 
 
 /-! ### (b) calls -/
 
-/-- **Function in context**: a `Function` node whose `get_parameters()` yields the re-spelled arguments in order (for
-the KF-C13-1 skeletons `sk.items = []`: the accessor returns nothing). -/
-theorem parameters_in_context (sk : ClauseSkel) (hk : sk.kind = .params) (h : canonical sk = true)
-    (ha : AdmissibleNames kwNorm f) (fuel : Nat) (hfuel : clauseFuel ≤ fuel) :
+/-- the statement of `parameters_in_context` -/
+def ParametersInContext (f : TType → Text → Text) (sk : ClauseSkel) (fuel : Nat) : Prop :=
     ∃ (ts : List Tok) (tree' : Node) (K : List Node) (args : List Node),
       clauseTokens sk = .ok ts ∧
       groupStatement fuel (ts.map (respellTok f)) = .ok tree' ∧
       K.map (respell f) ∈ kidsOfCls .Function tree' ∧ Node.textL K = sk.target ∧
       (getParameters kwNorm (K.map (respell f))).map (List.map (·.2)) = .ok (args.map (respell f)) ∧
-      args.map Node.text = sk.items := by
+      args.map Node.text = sk.items
+
+/-- **Function in context**: a `Function` node whose `get_parameters()` yields the re-spelled arguments in order (for
+the KF-C13-1 skeletons `sk.items = []`: the accessor returns nothing). -/
+theorem parameters_in_context (sk : ClauseSkel) (hk : sk.kind = .params) (h : canonical sk = true)
+    (ha : AdmissibleNames kwNorm f) (fuel : Nat) (hfuel : clauseFuel ≤ fuel) :
+    ParametersInContext f sk fuel := by
+  unfold ParametersInContext
   obtain ⟨tree0, htree, hc⟩ := canonical_tree h
   obtain ⟨ts, ks0, hts, rfl, hg⟩ := clauseTree_respell sk htree ha fuel hfuel
   simp only [canonicalOn, hk, List.any_eq_true] at hc
@@ -115,17 +125,22 @@ theorem parameters_in_context (sk : ClauseSkel) (hk : sk.kind = .params) (h : ca
 /-- the nodes of a `get_cases` entry -/
 def caseEntryNodes (e : CaseEntry) : Option (List Node) × List Node := (e.cond.map (List.map (·.2)), e.val.map (·.2))
 
-/-- **Case in context**: a `Case` node whose `get_cases(skip_ws=True)` yields, per WHEN, `([WHEN, condition…],
-[THEN, value…])` and for ELSE `(None, [ELSE, value…])`, as re-spelled nodes; in the skeleton their texts are the written
-parts. -/
-theorem cases_in_context (sk : ClauseSkel) (hk : sk.kind = .cases) (h : canonical sk = true)
-    (ha : AdmissibleNames kwNorm f) (fuel : Nat) (hfuel : clauseFuel ≤ fuel) :
+/-- the statement of `cases_in_context` -/
+def CasesInContext (f : TType → Text → Text) (sk : ClauseSkel) (fuel : Nat) : Prop :=
     ∃ (ts : List Tok) (tree' : Node) (K : List Node) (entries : List CaseEntry),
       clauseTokens sk = .ok ts ∧
       groupStatement fuel (ts.map (respellTok f)) = .ok tree' ∧
       K.map (respell f) ∈ kidsOfCls .Case tree' ∧ Node.textL K = sk.target ∧
       getCases kwNorm (K.map (respell f)) true = .ok (entries.map (CaseEntry.respell f)) ∧
-      entries.map caseEntryTexts = sk.cases := by
+      entries.map caseEntryTexts = sk.cases
+
+/-- **Case in context**: a `Case` node whose `get_cases(skip_ws=True)` yields, per WHEN, `([WHEN, condition…],
+[THEN, value…])` and for ELSE `(None, [ELSE, value…])`, as re-spelled nodes; in the skeleton their texts are the written
+parts. -/
+theorem cases_in_context (sk : ClauseSkel) (hk : sk.kind = .cases) (h : canonical sk = true)
+    (ha : AdmissibleNames kwNorm f) (fuel : Nat) (hfuel : clauseFuel ≤ fuel) :
+    CasesInContext f sk fuel := by
+  unfold CasesInContext
   obtain ⟨tree0, htree, hc⟩ := canonical_tree h
   obtain ⟨ts, ks0, hts, rfl, hg⟩ := clauseTree_respell sk htree ha fuel hfuel
   simp only [canonicalOn, hk, List.any_eq_true] at hc
@@ -143,16 +158,21 @@ theorem cases_in_context (sk : ClauseSkel) (hk : sk.kind = .cases) (h : canonica
 
 /-! ### (d) comparisons -/
 
-/-- **Comparison in context**: a `Comparison` node whose `left`/`right` are the re-spelled operands. -/
-theorem comparison_in_context (sk : ClauseSkel) (hk : sk.kind = .comparison) (h : canonical sk = true)
-    (ha : AdmissibleNames kwNorm f) (fuel : Nat) (hfuel : clauseFuel ≤ fuel) :
+/-- the statement of `comparison_in_context` -/
+def ComparisonInContext (f : TType → Text → Text) (sk : ClauseSkel) (fuel : Nat) : Prop :=
     ∃ (ts : List Tok) (tree' : Node) (K : List Node) (l r : Nat × Node),
       clauseTokens sk = .ok ts ∧
       groupStatement fuel (ts.map (respellTok f)) = .ok tree' ∧
       K.map (respell f) ∈ kidsOfCls .Comparison tree' ∧ Node.textL K = sk.target ∧
       comparisonLeft (K.map (respell f)) = .ok (l.1, respell f l.2) ∧
       comparisonRight (K.map (respell f)) = .ok (r.1, respell f r.2) ∧
-      [l.2.text, r.2.text] = sk.items := by
+      [l.2.text, r.2.text] = sk.items
+
+/-- **Comparison in context**: a `Comparison` node whose `left`/`right` are the re-spelled operands. -/
+theorem comparison_in_context (sk : ClauseSkel) (hk : sk.kind = .comparison) (h : canonical sk = true)
+    (ha : AdmissibleNames kwNorm f) (fuel : Nat) (hfuel : clauseFuel ≤ fuel) :
+    ComparisonInContext f sk fuel := by
+  unfold ComparisonInContext
   obtain ⟨tree0, htree, hc⟩ := canonical_tree h
   obtain ⟨ts, ks0, hts, rfl, hg⟩ := clauseTree_respell sk htree ha fuel hfuel
   simp only [canonicalOn, hk, List.any_eq_true] at hc
@@ -174,15 +194,20 @@ theorem comparison_in_context (sk : ClauseSkel) (hk : sk.kind = .comparison) (h 
 
 /-! ### (e) typed literals -/
 
-/-- **TypedLiteral in context**: exactly one `TypedLiteral` node carries the literal's text, its children are leaves,
-and it is the re-spelling of the skeleton's node (same leaf types, values re-spelled). -/
-theorem typedLiteral_in_context (sk : ClauseSkel) (hk : sk.kind = .typedLiteral) (h : canonical sk = true)
-    (ha : AdmissibleNames kwNorm f) (fuel : Nat) (hfuel : clauseFuel ≤ fuel) :
+/-- the statement of `typedLiteral_in_context` -/
+def TypedLiteralInContext (f : TType → Text → Text) (sk : ClauseSkel) (fuel : Nat) : Prop :=
     ∃ (ts : List Tok) (tree' : Node) (K : List Node),
       clauseTokens sk = .ok ts ∧
       groupStatement fuel (ts.map (respellTok f)) = .ok tree' ∧
       K.map (respell f) ∈ kidsOfCls .TypedLiteral tree' ∧ Node.textL K = sk.target ∧
-      (∀ k ∈ K.map (respell f), k.isGroup = false) := by
+      (∀ k ∈ K.map (respell f), k.isGroup = false)
+
+/-- **TypedLiteral in context**: exactly one `TypedLiteral` node carries the literal's text, its children are leaves,
+and it is the re-spelling of the skeleton's node (same leaf types, values re-spelled). -/
+theorem typedLiteral_in_context (sk : ClauseSkel) (hk : sk.kind = .typedLiteral) (h : canonical sk = true)
+    (ha : AdmissibleNames kwNorm f) (fuel : Nat) (hfuel : clauseFuel ≤ fuel) :
+    TypedLiteralInContext f sk fuel := by
+  unfold TypedLiteralInContext
   obtain ⟨tree0, htree, hc⟩ := canonical_tree h
   obtain ⟨ts, ks0, hts, rfl, hg⟩ := clauseTree_respell sk htree ha fuel hfuel
   simp only [canonicalOn, hk] at hc
